@@ -13,38 +13,47 @@ failing serializer call).
 
 Prints one JSON line: {cases, distinct, failures:[{signature, scenario, observed}], known:[...], bound, rule}.
 
-KNOWN_ON_UNCHANGED_TREE  (genuine violations of C07 on the unchanged /repo; still detected on every run, reported
-under the top-level key "known" instead of "failures"; each is exercised only by dedicated scenarios carrying a
-"corner" tag so that it can never mask a failure of the general space):
+KNOWN_ON_UNCHANGED_TREE  (genuine violations of C07 on the unchanged /repo; still detected on every run, but reported
+under the top-level key "known" instead of "failures".  K1, K2, K5 are exercised only by dedicated scenarios carrying
+a "corner" tag and are matched on (corner, clause, api, raised exception type, innermost eliot frame), so they can
+never mask a failure of the general space.  K3, K4 concern MemoryLogger only and are matched by location, see below.)
   K1 corner "exc_module_str_raises": an application exception whose class has a __module__ object whose __str__
-     raises (type("X", (Exception,), {"__module__": BadStr()})) fails an action: Action.finish formats
-     "%s.%s" % (cls.__module__, cls.__name__) outside any guard, so the formatting error leaves Action.__exit__ /
-     Action.finish and REPLACES the application's exception; the action gets no end message.
+     raises (type("ShyError", (Exception,), {"__module__": <obj whose __str__ raises ValueError>})) fails an action:
+     Action.finish formats "%s.%s" % (cls.__module__, cls.__name__) outside any guard, so the ValueError leaves
+     Action.__exit__ / Action.finish / a log_call-decorated function and REPLACES the application's exception; the
+     action gets no end message.
   K2 corner "extractor_nonstr_keys": a registered exception extractor returning a dict with a non-string key
-     ({1: 2}): write_traceback()/writeFailure() do msg.bind(**fields) -> TypeError("keywords must be strings")
-     leaves write_traceback (Action.finish with the same extractor is fine).
+     (register_exception_extractor(KeyError, lambda e: {1: 2})): write_traceback()/writeTraceback()/writeFailure() do
+     msg.bind(**fields) -> TypeError("keywords must be strings") leaves the call (Action.finish with the same
+     extractor is fine).
   K3 "memory_logger_formats_validation_error" (MemoryLogger only; the real Logger is fine): MemoryLogger.write catches
      the validation error of a message and then formats it with "{}: {}".format(e, ...); str(e) raises when
        (a) e is an exception raised by a field serializer whose own __str__ raises
            (corner "memory_serializer_badstr_exc": MessageType("t", [Field("v", ser)]).log(v=1, __eliot_logger__=MemoryLogger())
            with ser raising an exception class whose __str__ raises), or
        (b) e carries the message dictionary (ValidationError(message, "Field 'v' is missing" / "Unexpected field"),
-           TypeError(dictionary, "1 is not unicode")) and a value in it has a raising __repr__
-           (corner "memory_write_nonstr_key_badrepr": MemoryLogger().write({1: <object whose repr raises>}); also
+           TypeError(dictionary, "1 is not unicode"), TypeError("Message %s doesn't encode to JSON")) and a value in
+           it has a raising __repr__, a __repr__ returning a non-string (TypeError), is an integer of more than 4300
+           digits (ValueError: int->str conversion limit) or is nested too deeply (RecursionError)
+           (corner "memory_write_nonstr_key_badrepr": MemoryLogger().write({1: <object whose repr raises>}); also e.g.
            MessageType.log(other=<such object>) with the declared field missing).
-     The error then leaves the public logging call (MessageType.log, Message.write, ActionType(), Action.__exit__).
-     K4 "memory_logger_repr_raises_baseexception" (MemoryLogger only): a field value whose __repr__/__str__ raises a
+     The error then leaves the public logging call (log_message, MessageType.log, Message.write, start_action,
+     ActionType(), Action.__exit__ ...).
+     Classified by location, not by scenario: the logger is a MemoryLogger AND the innermost eliot frame of the escaping
+     exception is MemoryLogger.write itself (where == "_output.py:write" or "_output.py:write>driver", i.e. its own
+     format call going straight into hostile __str__/__repr__ or failing inside str()); an exception that passed
+     through a deeper eliot frame (_validate_message, a serializer, ...) is never this finding.
+  K4 "memory_logger_repr_raises_baseexception" (MemoryLogger only): a field value whose __repr__/__str__ raises a
      BaseException that is not an Exception (value kind badboth_AppBase): MemoryLogger.write only guards its
      validation with "except Exception", so the BaseException leaves log_message()/start_action()/... (the real Logger's
-     bare excepts swallow it).
-     K3 is classified by location, not by scenario: logger is a MemoryLogger AND the innermost eliot frame of the escaping
-     exception is MemoryLogger.write itself (where == "_output.py:write" or "_output.py:write>driver", i.e. its own
-     format call, directly into hostile __str__/__repr__ or failing inside str()); an exception that passed through a
-     deeper eliot frame (_validate_message, a serializer, ...) is never this finding.  Besides raising __str__/__repr__
-     the same str(e) fails with TypeError (__repr__ returning a non-string), ValueError (an integer of more than 4300
-     digits: int->str conversion limit) and RecursionError (deeply nested list/dict).
+     bare excepts swallow it).  Matched on logger == memory, that value kind, that exception type, raised by driver code.
+  K5 corner "stdlib_handler_message_str_raises": eliot.stdlib.EliotHandler.emit calls record.getMessage() unguarded
+     (and never uses Handler.handleError), so logging.Logger("x").info(obj) with an EliotHandler attached raises
+     obj.__str__'s exception into the application (stdlib handlers swallow/print such errors instead).
 """
 import argparse, collections, io, itertools, json, os, random, sys, tempfile, time, warnings
+
+sys.dont_write_bytecode = True  # never leave __pycache__ in the tree under test
 
 ap = argparse.ArgumentParser()
 ap.add_argument("--tier", default="quick")
@@ -53,6 +62,14 @@ ap.add_argument("--scenario")
 args = ap.parse_args()
 warnings.simplefilter("ignore")
 T0 = time.time()
+try:  # a runaway allocation in a broken tree must end in MemoryError, not in the OOM killer taking the driver down
+    import resource
+    import signal
+    resource.setrlimit(resource.RLIMIT_AS, (4 << 30, resource.getrlimit(resource.RLIMIT_AS)[1]))
+    signal.signal(signal.SIGXFSZ, signal.SIG_IGN)  # oversized temp file: write() fails with EFBIG instead of killing us
+    resource.setrlimit(resource.RLIMIT_FSIZE, (256 << 20, resource.getrlimit(resource.RLIMIT_FSIZE)[1]))
+except BaseException:
+    pass
 
 
 def emit(cases, distinct, failures, known, bound, rule):
@@ -68,6 +85,8 @@ try:
                        writeFailure, register_exception_extractor, Action, Logger, MemoryLogger, Message, MessageType,
                        ActionType, Field, FileDestination, ValidationError)
     from eliot._output import Destinations
+    from eliot.stdlib import EliotHandler
+    import logging
     import eliot._errors as _eliot_errors
 except BaseException as _e:  # a tree that cannot even be imported violates everything
     emit(1, 1, [{"signature": {"clause": "import_failed", "raised": type(_e).__name__}, "scenario": {}, "observed": [repr(_e)[:200]]}],
@@ -106,6 +125,22 @@ class BadStrExcK(Exception):
 class BadStrBaseExc(Exception):
     def __str__(self):
         raise AppBase("str of exception fails with a BaseException")
+
+
+class FalsyExc(Exception):
+    def __bool__(self):
+        return False
+
+    def __len__(self):
+        return 0
+
+
+class BoolRaisesExc(Exception):
+    # (a raising __bool__ is not used: the standard library's own traceback module cannot format such an exception)
+    def __eq__(self, other):
+        raise TypeError("comparison of this exception is undefined")
+
+    __hash__ = Exception.__hash__
 
 
 class BadReprExc(Exception):
@@ -186,6 +221,8 @@ EXC = {
     "BadStrExc": lambda: BadStrExc("x"),
     "BadStrExcK": lambda: BadStrExcK("x"),
     "BadStrBaseExc": lambda: BadStrBaseExc("x"),
+    "FalsyExc": lambda: FalsyExc("falsy"),
+    "BoolRaisesExc": lambda: BoolRaisesExc("no truth"),
     "BadReprExc": lambda: BadReprExc("x"),
     "BadBothExc": lambda: BadBothExc("x"),
     "NonStrStrExc": lambda: NonStrStrExc("x"),
@@ -481,6 +518,7 @@ class Dest(object):
     def __init__(self, run, spec):
         self.run, self.spec, self.calls, self.raised = run, spec, 0, []
         self.seen = []
+        self.dfail_seen = 0
         self.tmp = None
         k = spec["k"]
         self.inner = None
@@ -508,6 +546,17 @@ class Dest(object):
         if k == "good":
             self.seen.append(m)
             return
+        if kind == "dfail":
+            # A failure report is only ever produced for a failure on a non-report message, so no destination can be
+            # handed more reports than there were such failures.  If it is, reports are being generated for reports:
+            # stop feeding the loop (each round doubles the size of the embedded message) and flag it.
+            self.dfail_seen += 1
+            if self.dfail_seen > sum(1 for d in self.run.dests for kd, _ in d.raised if kd != "dfail"):
+                if not self.run.runaway:
+                    self.run.runaway = True
+                    self.run.bad("runaway_destination_failure_reports", "destination")
+            if self.run.runaway:
+                return
         try:
             if k == "raise":
                 if fires(self.spec.get("when"), i, kind):
@@ -564,6 +613,8 @@ class Run(object):
         self.obs = None
         self.lg = None
         self.extractor_model = []  # (class, behaviour, tag)
+        self.runaway = False
+        self.stdlib_expected = 0
 
     # ---- bookkeeping
     def bad(self, clause, api, **detail):
@@ -749,6 +800,8 @@ class Run(object):
                 self.do_msg(op, act)
             elif o == "tb":
                 self.do_tb(op, act)
+            elif o == "stdlib":
+                self.do_stdlib(op, act)
             else:
                 raise ValueError("unknown op %r" % (o,))
 
@@ -767,7 +820,7 @@ class Run(object):
             fields["w"] = {"nested": [val]}
         if api == "action_log" and act is None:
             api = "log_message"
-        if api == "Message_log" and (self.lg is not None or act is not None and False):
+        if api == "Message_log" and self.lg is not None:
             api = "Message_write"
         if api == "log_message":
             kw = dict(fields)
@@ -810,7 +863,8 @@ class Run(object):
                 ok, _ = self.call("MessageType.log", mt.log, other=val, **self.logger_kw())
         elif api == "logger_write":
             lg = self.lg if self.lg is not None else Logger()
-            d = {"message_type": name, "v": val, "task_uuid": "u", "task_level": [1], "timestamp": 1.0}
+            d = {"message_type": name, "v": val, "task_uuid": "u", "task_level": [1], "timestamp": 1.0,
+                 7: "int key", Hostile("both", "ValueError"): "hostile key", b"bytes": 1}
             snapshot = dict(d)
             ok, _ = self.call("Logger.write", lg.write, d)
             if set(d) != set(snapshot) or any(d[k] is not snapshot[k] for k in snapshot):
@@ -842,6 +896,40 @@ class Run(object):
             self.tb_expected.append((model_exc_name(type(e)), model_reason(e), self.model_extract(e)))
         else:
             self.tb_expected.append(None)
+
+    def do_stdlib(self, op, act):
+        """standard-library logging routed to eliot through eliot.stdlib.EliotHandler (default logger only)"""
+        if self.lg is not None:
+            return self.do_msg(M("log_message"), act)
+        n = self.nid()
+        lg = logging.Logger("c07.n%d" % n)  # free-standing: not registered with the logging manager
+        ok, h = self.call("EliotHandler", EliotHandler)
+        if not ok:
+            return
+        lg.addHandler(h)
+        old_raise = logging.raiseExceptions
+        self.site = ("stdlib", "msg")
+        try:
+            if op.get("hostile_msg"):
+                ok, _ = self.call("logging.Logger.info", lg.info, self.val)
+            elif op.get("exc"):
+                e = EXC[op["exc"]]()
+                try:
+                    raise e
+                except BaseException:
+                    ok, _ = self.call("logging.Logger.exception", lg.exception, "failed: %s", "reason")
+                if ok:
+                    self.tb_excs.append(e)
+                    self.tb_expected.append((model_exc_name(type(e)), model_reason(e), self.model_extract(e)))
+                else:
+                    self.tb_expected.append(None)
+            else:
+                ok, _ = self.call("logging.Logger.warning", lg.warning, "value %s", "text")
+            if ok:
+                self.stdlib_expected += 1
+        finally:
+            lg.removeHandler(h)
+            logging.raiseExceptions = old_raise
 
     def check_app_exc(self, caught, expected, before, api):
         if caught is not expected:
@@ -1092,7 +1180,7 @@ class Run(object):
                     if "xk" in m and "xk" not in extra:
                         self.bad("end_message_extracted_fields", "observer", key="xk(unexpected)")
         for rec in self.msgs:
-            if not rec["ok"] or rec["name"] not in by_mtype and False:
+            if not rec["ok"]:
                 continue
             got = len(by_mtype.get(rec["name"], []))
             want = 1
@@ -1100,6 +1188,8 @@ class Run(object):
                 want = 0
             if got != want:
                 self.bad("message_count", "observer", got=got, want=want, typed=rec["typed"])
+        if len(by_mtype.get("eliot:stdlib", [])) != self.stdlib_expected:
+            self.bad("message_count", "observer", got=len(by_mtype.get("eliot:stdlib", [])), want=self.stdlib_expected, typed="stdlib")
         if any_api_raised:
             return  # the counts below are meaningless once a call has blown up half-way
         # tracebacks: one per application request + one per failing extractor + one per failing serializer
@@ -1188,8 +1278,6 @@ class Run(object):
                 self.run_ops(self.sc["prog"], None)
                 if current_action() is not None:
                     self.bad("context_not_restored", "program")
-                if self.sc.get("late_dests") and self.dset is not None:
-                    pass
             finally:
                 pass
             if not self.sc.get("corner"):
@@ -1209,6 +1297,7 @@ KNOWN = [
     ("extractor_nonstr_keys", ("api_raised",), ("write_traceback", "writeTraceback", "writeFailure", "write_traceback(exc_info)"), "TypeError",
      "_traceback.py:_writeTracebackMessage"),
 ]
+KNOWN.append(("stdlib_handler_message_str_raises", ("api_raised",), ("logging.Logger.info",), "ValueError", "stdlib.py:emit>driver"))
 MEMORY_KNOWN = "memory_logger_formats_validation_error"
 MEMORY_BASE_KNOWN = "memory_logger_repr_raises_baseexception"
 
@@ -1293,6 +1382,14 @@ def M(api="log_message", **kw):
     return d
 
 
+def STD(exc=None, **kw):
+    d = {"op": "stdlib"}
+    if exc:
+        d["exc"] = exc
+    d.update(kw)
+    return d
+
+
 def TB(exc="ValueError", api="write_traceback"):
     return {"op": "tb", "exc": exc, "api": api}
 
@@ -1314,7 +1411,8 @@ def value_templates():
     t.append([A("log_call", body=[M("log_message")]), A("log_call_method", "KeyError"), A("log_call_noresult", include_args=1)])
     t.append([A("ctx", f=1, s=1, body=[A("run", "OSError", f=1, body=[M("action_log")])]), A("manual", f=1, s=1, finish_again=1)])
     t.append([A("task", f=1, body=[A("preserve", body=[M("log_message")]), A("continue", "RuntimeError", f=1), A("child", f=1, s=1)])])
-    t.append([TB("HostileArgs", a) for a in TB_APIS] + [A("with", "HostileArgs"), A("finish_exc", "BadStrExc", f=1)])
+    t.append([TB("HostileArgs", a) for a in TB_APIS] + [A("with", "HostileArgs"), A("finish_exc", "BadStrExc", f=1), STD(), STD("HostileArgs"),
+              A("with", body=[STD("BadStrExc")])])
     return t
 
 
@@ -1364,6 +1462,7 @@ def enumerate_scenarios(tier, seed):
     for api in TB_APIS:
         add(corner="extractor_nonstr_keys", logger="private", dests=[GOOD], value="int", extractors=[["KeyError", "nonstr_keys"]],
             prog=[TB("KeyError", api), A("with", "KeyError")])
+    add(corner="stdlib_handler_message_str_raises", logger="default", dests=[GOOD], value="badstr_ValueError", prog=[STD(hostile_msg=1)])
     add(corner="memory_serializer_badstr_exc", logger="memory", value="int", ser={"mode": "raise", "exc": "BadStrExc", "when": {"m": "all"}},
         prog=[M("typed_log"), M("typed_write"), A("typed", "ok"), A("typed_task", "ValueError")])
     add(corner="memory_write_nonstr_key_badrepr", special="memory_write_nonstr_key", logger="memory", value="badboth_ValueError", prog=[])
@@ -1476,6 +1575,8 @@ def enumerate_scenarios(tier, seed):
         for api in TB_APIS:
             add(logger="private", dests=[GOOD, {"k": "jsont"}], value="text", prog=[TB(ek, api), A("with", "ok", body=[TB(ek, api)])])
             add(logger="memory", value="text", prog=[TB(ek, api)])
+        add(logger="default", dests=[{"k": "raise", "exc": ek, "when": {"m": "kind", "kinds": ["tb", "msg"]}}, GOOD], value="text",
+            prog=[STD(ek), A("with", ek, body=[STD(), STD(ek)])])
 
     # ---- block F: seeded random programs x random faults in every dimension at once
     def rprog(depth, width):
@@ -1486,8 +1587,10 @@ def enumerate_scenarios(tier, seed):
                 ops.append(A(rng.choice(ACTION_STYLES + ["finish_exc"]), rng.choice(["ok", "ok"] + APP_KINDS), body=rprog(depth - 1, width),
                              f=rng.randint(0, 1), s=rng.randint(0, 1), s2=rng.randint(0, 1), finish_again=int(rng.random() < 0.15),
                              include_args=int(rng.random() < 0.2)))
-            elif r < 0.8:
+            elif r < 0.75:
                 ops.append(M(rng.choice(MSG_APIS), extra=rng.randint(0, 1), explicit_action=rng.randint(0, 1)))
+            elif r < 0.8:
+                ops.append(STD(rng.choice([None] + FAULT_KINDS)))
             else:
                 ops.append(TB(rng.choice(FAULT_KINDS), rng.choice(TB_APIS)))
         return ops
@@ -1515,7 +1618,7 @@ def enumerate_scenarios(tier, seed):
             return {"k": "file", "exc": rng.choice(FAULT_KINDS), "when": rwhen(), "on": rng.choice(["write", "flush"])}
         return {"k": "closed"}
 
-    for i in range(1200 if quick else 60000):
+    for i in range(1200 if quick else 120000):
         nd = rng.randint(0, 3)
         dests = [rdest() for _ in range(nd)]
         dests.insert(rng.randint(0, nd), GOOD)
@@ -1537,7 +1640,7 @@ def enumerate_scenarios(tier, seed):
 
 
 def main():
-    bound_q = ("programs of <= 3 nested levels / <= 3 ops per level over 15 action styles, 8 message APIs, 4 traceback APIs; "
+    bound_q = ("programs of <= 3 nested levels / <= 3 ops per level over 15 action styles, 8 message APIs, 4 traceback APIs, stdlib-logging handler; "
                "%d field-value kinds; %d Exception kinds + %d BaseException kinds; <= 4 destinations each failing on all calls / a set of message kinds / "
                "a periodic index mask (period <= 5) / after-before k; all 1- and 2-extractor registrations over 4 classes x 7 behaviours plus random <= 3 over %d classes; "
                "serializer failure masks of period 4; loggers default/private/memory; tier=%s seed=%d") % (
@@ -1550,12 +1653,14 @@ def main():
         scs = [json.loads(args.scenario)]
     else:
         scs = enumerate_scenarios(args.tier, args.seed)
-    budget = 27 if args.tier == "quick" else 780
+    budget = 24 if args.tier == "quick" else 780
     failing = 0
     sigs = set()
     ksigs = set()
     kcount = collections.Counter()
     truncated = 0
+    gd = Logger._destinations
+    saved_default = (list(getattr(gd, "_destinations", [])), getattr(gd, "_any_added", None), dict(getattr(gd, "_globalFields", {})))
     for idx, sc in enumerate(scs):
         if not args.scenario and time.time() - T0 > budget and not sc.get("corner"):
             truncated = len(scs) - idx
@@ -1589,6 +1694,14 @@ def main():
                 fails.append({"signature": sig, "scenario": sc, "observed": [json.dumps(x, sort_keys=True) for x in rest[:3]]})
             if len(fails) >= 5 or failing >= 40:
                 break
+    try:  # put the process-wide default destinations back exactly as they were found
+        gd._destinations[:] = saved_default[0]
+        if saved_default[1] is not None:
+            gd._any_added = saved_default[1]
+        gd._globalFields.clear()
+        gd._globalFields.update(saved_default[2])
+    except BaseException:
+        pass
     for k in known:
         k["observed"].append("scenarios showing this known signature in this run: %d" % kcount[json.dumps(k["signature"], sort_keys=True)])
     if truncated:
